@@ -1638,7 +1638,10 @@ def tree_of(path):
                 try:
                     with open(full, "rb") as fh:
                         data = fh.read()
-                    out[r] = ("f", hashlib.sha1(data).hexdigest(), len(data))
+                    if f in ("args.json", "options.json") and len(data) < 100000:
+                        out[r] = ("f", hashlib.sha1(data).hexdigest(), len(data), data.decode("utf-8", "replace"))
+                    else:
+                        out[r] = ("f", hashlib.sha1(data).hexdigest(), len(data))
                 except OSError as ex:
                     out[r] = ("f", "ERR:" + str(ex.errno), -1)
     return out
